@@ -1,7 +1,7 @@
 (** C11 — property theorems only. *)
 From Coq Require Import List ZArith NArith Bool.
 From C33 Require Import Lib.Harness Lib.Bytes Lib.OMap C11.Model C11.Spec C11.ProofsSpec C11.ProofsState
-  C11.Proofs C11.ProofsRefute.
+  C11.Proofs C11.ProofsOps C11.ProofsRefute.
 Import ListNotations.
 
 (** Under the guard (third component of [run_model]: no Rollback was called while local writes
@@ -15,26 +15,31 @@ Proof. exact model_refines_spec. Qed.
 Print Assumptions C11_model_refines_spec_partial.
 
 (** The same block with every failed transaction / group replaced by "pay the fee only"
-    gives the same receipts and the same reads of all other transactions (guard on both runs). *)
-Theorem C11_failed_tx_equiv_fee_only_partial : forall store main blk trs rcs trs' rcs',
+    satisfies the guard and gives the same receipts and the same reads of all other transactions. *)
+Theorem C11_failed_tx_equiv_fee_only_partial : forall store main blk trs rcs,
   sorted main ->
   run_model store main blk = (trs, rcs, true) ->
-  run_model store main (replace_failed (abs_init store main) blk) = (trs', rcs', true) ->
-  rcs' = rcs /\ trs' = erase_failed rcs trs.
+  run_model store main (replace_failed (abs_init store main) blk) = (erase_failed rcs trs, rcs, true).
 Proof. exact failed_equiv_fee_only. Qed.
 Print Assumptions C11_failed_tx_equiv_fee_only_partial.
 
-(** a block with a failed transaction that had written local data satisfies both guards *)
+(** a block with a failed transaction that had written local data satisfies the guard *)
 Example C11_guard_example :
-  (exists trs rcs, run_model w_store w_main g_block = (trs, rcs, true) /\
-                   existsb (fun r => (rc_ty r =? ExecPack)%N) rcs = true) /\
-  (exists trs rcs, run_model w_store w_main (replace_failed (abs_init w_store w_main) g_block) = (trs, rcs, true)).
+  exists trs rcs, run_model w_store w_main g_block = (trs, rcs, true) /\
+                  existsb (fun r => (rc_ty r =? ExecPack)%N) rcs = true /\
+                  replace_failed (abs_init w_store w_main) g_block <> g_block.
 Proof.
-  split.
-  - eexists. eexists. split; [exact guard_example|reflexivity].
-  - eexists. eexists. exact guard_example_replaced.
+  eexists. eexists. split; [exact guard_example|split; [reflexivity|]].
+  vm_compute. discriminate.
 Qed.
 Print Assumptions C11_guard_example.
+
+(** The guard is a property of the block, not of cache contents: it can be computed on the
+    specification side (a local write happened since the last List / Begin when a Rollback comes). *)
+Theorem C11_guard_spec_level : forall store main blk trs rcs g,
+  sorted main -> run_model store main blk = (trs, rcs, g) -> g = spec_guard store main blk.
+Proof. exact model_guard_eq. Qed.
+Print Assumptions C11_guard_spec_level.
 
 (** State writes, no guard: receipts and state reads of every block are those of the
     specification ... *)
@@ -57,7 +62,7 @@ Print Assumptions C11_state_failed_tx_equiv_fee_only.
     state and local maps, nor the receipts, nor the reads of the other transactions. *)
 Theorem C11_spec_replace_block : forall blk a,
   let '(a1, trs, rcs, _) := exec_block abs a blk in
-  res3 (exec_block abs a (replace_failed a blk)) = (a1, erase_failed rcs trs, rcs).
+  exec_block abs a (replace_failed a blk) = (a1, erase_failed rcs trs, rcs, true).
 Proof. exact spec_replace_block. Qed.
 Print Assumptions C11_spec_replace_block.
 
@@ -75,6 +80,22 @@ Print Assumptions C11_spec_failed_leaves_fee_only.
 Theorem C11_refuted : ~ refines_full.
 Proof. exact refines_full_refuted. Qed.
 Print Assumptions C11_refuted.
+
+(** The cheap layer: bracketed Begin/Set/Get/List/Commit/Rollback histories on executor.LocalDB
+    behave like a transactional map as long as nothing is buffered when Rollback is called. *)
+Theorem C11_localdb_ops_partial : forall main ops,
+  sorted main -> bracketed false ops = true -> xdb_guard (xdb_new main) ops = true ->
+  run_xops main ops = spec_xops main ops.
+Proof. exact localdb_ops_refine. Qed.
+Print Assumptions C11_localdb_ops_partial.
+
+Example C11_ops_guard_example : bracketed false g_ops = true /\ xdb_guard (xdb_new w_main) g_ops = true.
+Proof. exact ops_guard_example. Qed.
+Print Assumptions C11_ops_guard_example.
+
+Theorem C11_localdb_ops_refuted : ~ ops_full.
+Proof. exact ops_full_refuted. Qed.
+Print Assumptions C11_localdb_ops_refuted.
 
 Theorem C11_failed_tx_equiv_fee_only_refuted : ~ fee_only_full.
 Proof. exact fee_only_full_refuted. Qed.
